@@ -22,6 +22,7 @@ type Opts struct {
 	TestUA  bool     `json:"test_ua,omitempty"`
 	UACSS   string   `json:"ua_css,omitempty"` // replaces the UA sheet when non-empty
 	BaseURL string   `json:"base_url,omitempty"`
+	Media   string   `json:"media,omitempty"` // media type the document is rendered for ("" = print)
 }
 
 // Rendered is the outcome of the full pipeline.
@@ -107,7 +108,7 @@ func ParseHTML(src string, o Opts) (*tree.HTML, error) {
 	if base == "" {
 		base = "file:///verif-nonexistent/"
 	}
-	h, err := tree.NewHTML(utils.InputString(src), base, Fetcher, "")
+	h, err := tree.NewHTML(utils.InputString(src), base, Fetcher, o.Media)
 	if err != nil {
 		return nil, err
 	}
